@@ -39,8 +39,9 @@ def joinWith (sep : List Char) : List (List Char) → List Char
   | [x] => x
   | x :: y :: r => x ++ sep ++ joinWith sep (y :: r)
 
-def hexDigit (n : Nat) : Char :=
-  if n < 10 then Char.ofNat (48 + n) else Char.ofNat (87 + n)
+def hexChars : List Char := ['0', '1', '2', '3', '4', '5', '6', '7', '8', '9', 'a', 'b', 'c', 'd', 'e', 'f']
+
+def hexDigit (n : Nat) : Char := hexChars.getD n '0'
 
 /-- `serde_json` string escaping: `"` `\` and the control characters below 0x20 -/
 def escapeChar (c : Char) : List Char :=
@@ -111,6 +112,13 @@ def traverse : Json → List String → Option Json
     | none => none
     | some c => traverse c ks
 
+/-- `str::split('.')`: `""` gives `[""]`, `"a..b"` gives `["a", "", "b"]` -/
+def splitDotsAux : List Char → List Char → List String
+  | [], cur => [String.ofList cur.reverse]
+  | c :: cs, cur => if c = '.' then String.ofList cur.reverse :: splitDotsAux cs [] else splitDotsAux cs (c :: cur)
+
+def splitDots (p : String) : List String := splitDotsAux p.toList []
+
 /-- the summand a value contributes: `null` counts as `0.0`, a number as `as_f64()`, anything else fails -/
 def numBits : Json → Option Nat
   | .null => some 0
@@ -127,7 +135,7 @@ def numBitsAll : List Json → Option (List Nat)
 mutual
 /-- `CsvMapping::apply_mapping`; `none` = `Err(msg)` (messages are not modelled) -/
 def CsvMapping.apply (N : NumOps) : CsvMapping → Json → Option Json
-  | .path p, j => traverse j (p.splitOn ".")
+  | .path p, j => traverse j (splitDots p)
   | .sum ms, j =>
     match applyAll N ms j with
     | none => none
